@@ -64,6 +64,7 @@ type Contract struct {
 	Modifies  []string
 	HasMod    bool
 	Allocates []string // components changed only at references allocated during the call
+	CallHints map[string][]Clause // callee -> facts proved (and then assumed) just before each call of it
 	AtExit    []AtExit
 	Decreases []Clause
 	Loops     map[int]*LoopSpec
@@ -253,6 +254,13 @@ func (sp *Spec) loadFile(path, prefix string) error {
 		case "modifies":
 			cur.HasMod = true
 			cur.Modifies = append(cur.Modifies, parseList(rest)...)
+		case "callhint":
+			// callhint <callee> [label] expr : an intermediate assertion at every call of callee
+			cal, r2 := splitWord(rest)
+			if cur.CallHints == nil {
+				cur.CallHints = map[string][]Clause{}
+			}
+			cur.CallHints[cal] = append(cur.CallHints[cal], parseClause(r2, src))
 		case "allocates":
 			cur.Allocates = append(cur.Allocates, parseList(rest)...)
 		case "atexit":
